@@ -24,7 +24,7 @@ from .cdef import Contract, LoopSpec  # noqa: E402,F401
 
 SPEC_PRIM_NAMES = {'be', 'le', 'sl', 'cat', 'low', 'shr', 'pow2', 'tb', 'tl', 'bat', 'rpow', 'rpow2', 'bfind',
                    'band', 'bor', 'at', 'toreal', 'is_int_valued', 'decode', 'decodable', 'has_key', 'pv',
-                   'kind_of', 'raw_of', 'val_of', 'keys_of', 'append', 'cls_is', 'warned', 'i2r', 'src_T', 'src_R', 'coerce_like', 'coercible', 'comparable'}
+                   'kind_of', 'raw_of', 'val_of', 'keys_of', 'append', 'cls_is', 'warned', 'i2r', 'src_T', 'src_R', 'coerce_like', 'coercible', 'comparable', 'cap'}
 
 
 class Registry:
@@ -507,7 +507,14 @@ def bind_call_args(I, fn_node, args, kwargs, def_frame, node, skip_self=False):
     return newf.vars
 
 
-def apply_contract(I, con, args, kwargs, node, clo=None, constructing=None, result_builder=None):
+def capture_term(I, con_name, cname, cty, func_sv):
+    """a variable captured by a closure that is only known as a function VALUE: an accessor of the function object"""
+    from .objects import wrap_term
+    acc = z3.Function(f"cap_{cname}", TY.Obj, TY.smt_sort(cty))
+    return wrap_term(I, cty, acc(func_sv.extra['id']))
+
+
+def apply_contract(I, con, args, kwargs, node, clo=None, constructing=None, result_builder=None, func_sv=None):
     """Replace a call by the callee's contract."""
     caller = I.fname
     callee = con.target
@@ -548,8 +555,10 @@ def apply_contract(I, con, args, kwargs, node, clo=None, constructing=None, resu
     sf.module = '__spec__'
     for k, v in coerced.items():
         sf.vars[k] = v
-    for cname in con.captures:
+    for cname, cty in con.captures.items():
         cv = clo.frame.lookup(cname) if clo is not None else None
+        if cv is None and func_sv is not None:
+            cv = capture_term(I, callee, cname, cty, func_sv)
         if cv is None:
             raise StaleContract(f"{callee}: captured variable {cname} not found")
         sf.vars[cname] = cv
